@@ -317,6 +317,46 @@ def pushback_taint(ctx, rule, which):
     ctx.floor(rule, "name_buf-fillers/" + which, n, 2)
 
 
+def ignore_lf_consumed_when_seen(ctx, rule, which):
+    """get_preprocessed_char: whenever the pending 'ignore LF' flag is seen set, it is cleared on that very path - also on the path
+    that runs out of input while skipping the LF (otherwise a line feed at the start of the next chunk is swallowed as well)"""
+    T = ctx.tables(which)
+    pcs = T["helpers"].get("get_preprocessed_char")
+    if not pcs:
+        raise AnchorMissing("%s tokenizer: get_preprocessed_char not tabulated" % which)
+    n = 0
+    bad = None
+    for pc in pcs:
+        if pc["guards"].get("self.ignore_lf") is not True:
+            continue
+        n += 1
+        sets = [args for a, args in pc["actions"] if a == "set self.ignore_lf"]
+        if not sets or tuple(sets[0]) != ("false",):
+            nomore = any("None" in str(v) or v is False for k, v in pc["guards"].items() if "input.next()" in k and "Some/Ok" in k)
+            bad = "a path that saw the flag set returns %s without clearing it%s" % (pc["ret"], " (input ran out while skipping the LF)" if nomore else "")
+    ctx.ob(rule, "ignore_lf-cleared-on-every-path-that-saw-it/" + which, bad is None and n >= 4, bad or "%d paths with the flag set all clear it first" % n, "%s tokenizer get_preprocessed_char" % which)
+
+
+def charref_needs_more_input_means_stuck(ctx, rule, which):
+    """character-reference sub-tokenizer: a path on which the input queue was empty answers Stuck and has changed nothing"""
+    T = ctx.tables(which)
+    n = 0
+    for fn, pcs in sorted(T["charref"].items()):
+        if fn in ("end_of_file", "get_result", "new", "finish_none", "finish_one", "finish_numeric", "finish_named", "unconsume_name", "unconsume_numeric"):
+            continue
+        for pc in pcs:
+            empty = [l for l, ch in pc["acq"] if l in ("peek", "get_char") and ch == "None"]
+            if not empty:
+                continue
+            n += 1
+            effects = [a for a, _ in pc["actions"] if not a.startswith("tokenizer.peek") and a not in ("peek", "get_char")]
+            ok = str(pc["ret"]) == "Stuck" and not effects
+            ctx.ob(rule, "charref-empty-input-is-stuck/%s/%s" % (which, fn), ok, "an empty queue gives Stuck with no state change" if ok else
+                   "%s: with the input queue empty the function answers %s after %s: a reference split across chunks is decided without its next character" % (fn, pc["ret"], effects[:3] or "nothing"),
+                   "%s char_ref %s" % (which, fn))
+    ctx.floor(rule, "charref-empty-input-paths/" + which, n, 4)
+
+
 # ------------------------------------------------------------------ R08.3 (tokenizer part)
 STRIP_FOR_OPTIONS = ("emit_error", "time_in_sink", "state_profile", "dump_profile", "call println", "call _print")
 
